@@ -177,6 +177,18 @@ def k3_values(run, rng, n):
                 except Exception as e:  # noqa: BLE001
                     ok = False
                     ds_problem = {"blockwise_with_missing_labels": ln.tolist(), "chunks": list(chunks), "raised": repr(e)[:200]}
+            # a SEQUENCE of calls on the same array with different label vectors of the same length (the helper is memoised: every
+            # answer must be the answer for ITS labels)
+            for _k in range(6):
+                rl = G.random_composition(rng, m)
+                sl = np.array(labels_of_runs(rl))
+                o3 = flox.rechunk_for_blockwise(arr, axis=-1, labels=sl)
+                nc = list(o3.chunks[-1])
+                if any(c <= 0 for c in nc) or sum(nc) != m or straddles(sl.tolist(), nc):
+                    ok = False
+                    ds_problem = {"call_in_a_sequence_on_the_same_array": _k, "labels": sl.tolist(), "new_chunks": nc, "group_straddles_boundaries_at": straddles(sl.tolist(), nc)}
+                    break
+                del sl
             res, _ = flox.groupby_reduce(out, labels, func="sum", method="blockwise")
             want = np.stack([np.bincount(labels, weights=row) for row in data])
             ok = ok and np.array_equal(np.asarray(res.compute()), want)
